@@ -99,6 +99,23 @@ def changed_signatures(P):
     return out
 
 
+_vanished_cache = {}
+
+
+def vanished_functions(P):
+    """Functions of the pinned API that are not in the program under any name the loader maps back."""
+    key = id(P)
+    if key in _vanished_cache:
+        return _vanished_cache[key]
+    here = os.path.dirname(os.path.abspath(__file__))
+    with open(os.path.join(here, "api_signatures.json")) as f:
+        api = json.load(f)["functions"]
+    out = sorted(n for n in api if n not in P.fns)
+    _vanished_cache.clear()
+    _vanished_cache[key] = out
+    return out
+
+
 def run_rules(P, rule_ids, env=None):
     """Run rules; returns list of per-rule result dicts."""
     env = env or {}
@@ -133,6 +150,16 @@ def run_rules(P, rule_ids, env=None):
                     for c in f.calls:
                         rel.update(P.local_targets(c))
                 hit = sorted(rel & set(changed))
+                gone = vanished_functions(P)
+                hosts = {h for (h, w) in getattr(P.facts, "inlined", [])} if gone else set()
+                absorbed = sorted(rel & hosts)
+                if absorbed and not hit:
+                    # a function of the pinned tree no longer exists and new functions were merged
+                    # into this one (or the one it calls): the rules that are anchored on the
+                    # vanished function read its pieces in a place they were not written for
+                    if err is None:
+                        err = "%s: idiom not recognised: %s no longer exists as a function and new code was merged into %s; %s is not judged" % (rid, gone[0], absorbed[0], fid)
+                    continue
                 ind = sorted(x for x in rel if x in P.fns and any(c.path.startswith("<indirect") for c in P.fns[x].calls)) if not hit else []
                 if ind:
                     # what a call through a function pointer does is not read: a violation about the
